@@ -111,6 +111,9 @@ func execWs(w []string) (out string) {
 			out = canonPanic(r)
 		}
 	}()
+	if k, _ := field(w, "kind="); k == "big" {
+		return execBig(w) // large populations: compact weight description, see big.go
+	}
 	seed, _ := strconv.ParseInt(w[1], 10, 64)
 	m, _ := strconv.Atoi(w[2])
 	ws, _ := field(w, "w=")
@@ -748,6 +751,8 @@ func gen(c *hx.Ctx) {
 			c.Count("wseq")
 		}
 	}
+	// 5c. large populations and size boundaries (big.go)
+	genBig(c, g)
 	// 6. argument validation
 	for _, pc := range [][2]int{{0, 1}, {0, 3}, {-1, 1}, {-5, 4}, {2, 1}, {5, 4}, {1, 0}, {0, 0}, {-1, 0}, {1, -3}, {-2, -3}} {
 		m, n := pc[0], pc[1]
